@@ -64,7 +64,7 @@ META = {
     'search_only': ['the pre-/post-filter selection of the pattern of the energy smoothers '
                     '(filter_matrix_rows / truncate_rows): judged on the real outputs by independent NumPy oracles ((P - T) B_c = 0, '
                     'supp(P - T) inside Atilde^degree pattern(T) with the filter recomputed independently, identity rows, P B_c = B) '
-                    '-- no Lean model of the filters; the loops themselves have executable models for which the property is a theorem on every '
+                    '-- the filters are not modelled in this check (their kernel models belong to C19); the loops themselves have executable models for which the property is a theorem on every '
                     'input (cg / cgnr: cg_run_property, gmres: gmres_run_property, complex: cgC_run_property / gmresC_run_property; E24, E48), '
                     'run on the pattern the code actually used',
                     'whole hierarchies (smoothed_aggregation_solver, rootnode_solver; keep=True, improve_candidates=None): every '
@@ -2510,6 +2510,262 @@ def part_e48(ctx, N):
             items.append(safe(ctx, item_smooth_c, rng, t // 2))
         if t % 2 == 1:
             items.append(safe(ctx, item_jacobi_filtered_c, rng, t // 2))
+    return items
+
+
+# ------------------------------------------------------------------------------------------------
+# extension E53: the whole of energy_prolongation_smoother (pattern selection with degree / prefilter /
+# root rows, filter_operator pass, Krylov loop, postfilter + second pass) vs Model/ExtC10dEnergy.lean
+# ------------------------------------------------------------------------------------------------
+
+def pat_of_bsr(X, nbr):
+    return [sorted(int(c) for c in X.indices[X.indptr[i]:X.indptr[i + 1]]) for i in range(nbr)]
+
+
+def dec_pat(s, nbr):
+    if s == 'none':
+        return [[] for _ in range(nbr)]
+    return [[int(x) for x in dec_list(r)] for r in s.split(';')]
+
+
+def delicate_filter(X, filt, rel):
+    """is a row-wise filter decision on the sparse matrix X numerically delicate?  (an entry within `rel` of the
+    theta threshold, of the k-th largest magnitude, or a tiny non-zero entry)"""
+    if not filt:
+        return False
+    Xc = sp.csr_array(X)
+    for i in range(Xc.shape[0]):
+        a = np.abs(Xc.data[Xc.indptr[i]:Xc.indptr[i + 1]])
+        a = a[a > 0]
+        if len(a) == 0:
+            continue
+        mx = a.max()
+        if a.min() < rel * mx:
+            return True
+        th = filt.get('theta', 0)
+        if th and np.any(np.abs(a - th * mx) < rel * mx):
+            return True
+        if 'k' in filt:
+            k = int(filt['k'])
+            s = np.sort(a)[::-1]
+            if len(s) > k and (s[k - 1] - s[k]) < rel * mx:
+                return True
+    return False
+
+
+E53_PRE = [None, {'theta': 0.25}, {'k': 2}, {'theta': 0.5, 'k': 1}, None, {'k': 1}, {'theta': 0.125, 'k': 2}, {'theta': 0.3},
+           {'theta': 0.0, 'k': 3}, {'theta': 0.5}]
+E53_POST = [None, {'theta': 0.1}, {'k': 2}, {'theta': 0.1, 'k': 2}, {'k': 1}, {'theta': 0.25, 'k': 1}, {'k': 3}, {'theta': 0.0}]
+
+
+def e53_filter_enc(f):
+    f = f or {}
+    return (enc_rat(f['theta']) if 'theta' in f else '-') + ' ' + (str(int(f['k'])) if 'k' in f else '-')
+
+
+def item_energy_full(ctx, rng, t):
+    """energy_prolongation_smoother, every option, vs the composed model `C10dM.energyFullCG` / `energyFullGmres`
+    (`ext_c10d_energy`): the pattern handed to compute_BtBinv in the first pass (exact), the pattern of the
+    post-filter pass (exact unless the filter decision on the smoothed P is numerically delicate), the returned P
+    (tolerance 1e-6), and the exact checks of the theorem's conclusion made by the driver on the model's result"""
+    from pyamg.aggregation.smooth import energy_prolongation_smoother
+    from pyamg.aggregation.tentative import fit_candidates
+    from pyamg.util.utils import scale_T, get_Cpt_params
+    cplx = t % 4 == 3
+    root = (t // 2) % 2 == 1
+    krylov = ['cg', 'cgnr', 'gmres'][(t // 4) % 3]
+    degree = int(rng.choice([0, 1, 1, 2]))
+    maxiter = int(rng.integers(1, 4)) if krylov != 'gmres' else int(rng.choice([1, 2]))
+    weighting = ['local', 'diagonal', 'block'][int(rng.integers(3))]
+    pre = E53_PRE[int(rng.integers(len(E53_PRE)))]
+    post = E53_POST[int(rng.integers(len(E53_POST)))] if root else None
+    bs = int(rng.choice([1, 1, 2]))
+    nn = int(rng.integers(4, 8 if bs == 1 else 5))
+    M = rand_matrix(rng, nn, bs, cplx=cplx, sym=(krylov == 'cg' or t % 5 == 0))
+    S = to_sparse(M, bs)
+    agg, nc = chain_partition(rng, nn)
+    extra = 0
+    if root:
+        roots = np.array([int(rng.choice([i for i in range(nn) if agg[i] == j])) for j in range(nc)], dtype=np.int32)
+        extra = int(rng.choice([0, 0, 1]))
+        B = rand_candidates(rng, agg, nc, bs, bs + extra, cplx, 'generic')
+        K2 = bs
+    else:
+        roots = None
+        K2 = int(rng.choice([1, 1, 2])) if bs == 1 else int(rng.choice([1, bs]))
+        B = rand_candidates(rng, agg, nc, bs, K2, cplx, 'generic')
+    nd = B.shape[1]
+    # strength matrix with dyadic values: ties at the theta threshold and at the k-th largest entry are frequent,
+    # negative entries make exact cancellations in Atilde^degree pattern(T) possible
+    nodes = np.zeros((nn, nn), dtype=bool)
+    for i in range(nn):
+        for j in range(nn):
+            nodes[i, j] = np.any(M[i * bs:(i + 1) * bs, j * bs:(j + 1) * bs] != 0)
+    keep = rng.random((nn, nn)) < 0.75
+    Cn = (nodes & keep) | (np.eye(nn, dtype=bool) if rng.random() < 0.85 else False)
+    vals = rng.choice([0.25, 0.5, 0.5, 1.0, 1.0, 2.0, -0.5, -1.0], size=(nn, nn))
+    Cv = Cn * vals
+    if root:
+        for i in range(nn):
+            if agg[i] < 0:
+                Cv[i, :] = 0
+                Cv[:, i] = 0
+                Cv[i, i] = 1.0
+    C = gen.int32csr(sp.csr_array(Cv))
+    if rng.random() < 0.5 and C.nnz > 1:         # unsorted column indices: the order of the product's entries changes
+        for i in range(nn):
+            lo, hi = C.indptr[i], C.indptr[i + 1]
+            p = rng.permutation(hi - lo)
+            C.indices[lo:hi] = C.indices[lo:hi][p]
+            C.data[lo:hi] = C.data[lo:hi][p]
+    AggOp = aggop_of(agg, nc)
+    T0, Bc = fit_candidates(AggOp, B[:, :K2] if root else B)
+    cpts = []
+    par = (False, {})
+    if root:
+        p = get_Cpt_params(S, roots, AggOp, T0)
+        T0 = scale_T(T0, p['P_I'], p['I_F'])
+        Bc = p['P_I'].T @ B
+        cpts = [int(c) for c in p['Cpts']]
+        par = (True, p)
+    if T0.format != 'bsr':
+        T0 = T0.tobsr(blocksize=(1, 1))
+    rpb, cpb = T0.blocksize
+    case = {'op': 'energy_full', 'root': root, 'krylov': krylov, 'degree': degree, 'maxiter': maxiter, 'weighting': weighting,
+            'prefilter': pre, 'postfilter': post, 'bs': bs, 'nn': nn, 'K2': K2, 'nd': nd, 'complex': cplx, 'M': cj(M),
+            'Cp': C.indptr.tolist(), 'Cj': C.indices.tolist(), 'Cx': C.data.tolist(), 'agg': [int(a) for a in agg], 'nc': nc,
+            'roots': None if roots is None else roots.tolist(), 'B': cj(B)}
+    Tin = T0.copy()
+    tpat = ';'.join(enc_ints([int(c) for c in Tin.indices[Tin.indptr[i]:Tin.indptr[i + 1]]]) for i in range(nn))
+    what = (f'energy_prolongation_smoother({krylov}, degree={degree}, maxiter={maxiter}, {weighting}, prefilter={pre}, '
+            f'postfilter={post}, root={root}, complex={cplx})')
+    try:
+        with Tap('compute_BtBinv') as tap, Tap('filter_matrix_rows') as tapf, Tap('truncate_rows') as tapk, quiet():
+            P = energy_prolongation_smoother(S, T0, C.copy(), Bc, B if root else None, par, krylov=krylov, maxiter=maxiter,
+                                             degree=degree, weighting=weighting, prefilter=dict(pre) if pre else None,
+                                             postfilter=dict(post) if post else None)
+    except Exception as e:       # noqa: BLE001
+        ctx.violation(f'{what} raised {type(e).__name__}: {e}', case)
+        return None
+    if not tap.calls:
+        return None
+    pats = [c[0][1] for c in tap.calls]
+    if any(p_.format != 'bsr' or tuple(p_.blocksize) != (rpb, cpb) for p_ in pats):
+        ctx.corr('energy smoother (E53)', case, 'n/a', f'pattern formats {[(p_.format, getattr(p_, "blocksize", None)) for p_ in pats]}')
+        return None
+    for p_ in pats:
+        st = rows_status(Bc, p_.indptr, p_.indices, nn, cpb)
+        if any(x not in ('ok', 'empty') for x in st):
+            ctx.feat('energy-full:ill-posed-rows-skipped')
+            return None
+    post_eff = {k_: v for k_, v in (post or {}).items() if not (k_ == 'theta' and v == 0)}
+    second = bool(root and post_eff)
+    if len(pats) != (2 if second else 1):
+        ctx.corr('energy smoother (E53)', case, f'{2 if second else 1} calls of compute_BtBinv', f'{len(pats)} calls')
+        return None
+    # numerically delicate filter decisions (the model decides them exactly)
+    pre_eff = {k_: v for k_, v in (pre or {}).items() if not (k_ == 'theta' and v == 0)}
+    npf, npk = (1 if 'theta' in pre_eff else 0), (1 if 'k' in pre_eff else 0)
+    delicate1 = False
+    if pre_eff and (cplx or 'theta' in pre_eff and pre_eff['theta'] not in (0.5, 0.25, 0.125)):
+        # complex moduli are rounded (hypot), theta * max is rounded for a theta that is not a power of two
+        for c in tapf.calls[:npf] + tapk.calls[:npk]:
+            delicate1 = delicate1 or delicate_filter(c[0][0], pre_eff, 1e-12)
+    delicate2 = False
+    if second:
+        for c in tapf.calls[npf:] + tapk.calls[npk:]:
+            delicate2 = delicate2 or delicate_filter(c[0][0], post_eff, 1e-7)
+    Td, Pd = Tin.toarray(), P.toarray()
+    n = M.shape[0]
+    mode = 'c' if cplx else 'r'
+    if krylov == 'cgnr':
+        wt, aux = 4, (np.abs(M) ** 2).sum(0)
+    else:
+        wt, aux = {'diagonal': 0, 'local': 1, 'block': 3}[weighting], np.abs(M).sum(1)
+    tol = enc_crat(1e-8) if cplx else enc_rat(1e-8)
+    Cx = C.data.astype(complex) if cplx else C.data
+    line = (f'ext_c10d_energy {mode} {krylov} {wt} {bs} {degree} {e53_filter_enc(pre)} {e53_filter_enc(post)} {1 if root else 0} '
+            f'{maxiter} {n} {Td.shape[1]} {nd} {rpb} {cpb} {nn} {enc_ints(C.indptr)} {enc_ints(C.indices)} {enc_vals(Cx, mode)} '
+            f'{tpat} {enc_vals(M, mode)} {enc_vals(aux, mode)} {enc_vals(Td, mode)} {enc_vals(Bc, mode)} '
+            f'{enc_vals(B if root else np.zeros((n, nd)), mode)} {enc_ints(cpts)} {tol} {tol}')
+    tag = f'energy-full:{krylov}:{"complex" if cplx else "real"}:{"root" if root else "plain"}'
+
+    def judge(reply):
+        ctx.feat(tag)
+        ctx.feat('energy-full:prefilter:' + ('+'.join(sorted(pre_eff)) if pre_eff else 'none') + (':deg0' if degree == 0 else ''))
+        if root:
+            ctx.feat('energy-full:postfilter:' + ('+'.join(sorted(post_eff)) if post_eff else 'none'))
+        if reply.startswith('error:'):
+            if reply in ('error:singular', 'error:krylov', 'error:precond'):
+                ctx.feat('energy-full:singular-skipped')
+            else:
+                ctx.corr(f'energy smoother (E53) {krylov}', case, reply, 'returned a prolongator')
+            return
+        parts = reply.split('#')
+        if len(parts) != 8:
+            ctx.corr(f'energy smoother (E53) {krylov}', case, reply[:300], 'n/a', 'malformed reply')
+            return
+        p1, p2, pm, _p1m, flags, chk, d1, d2 = parts
+        if 'NOHYPS' in chk or 'NOPROP' in chk:
+            ctx.corr(f'energy smoother (E53) {krylov} (model invariants)', case, chk, 'n/a',
+                     'the call does not satisfy the hypotheses of energy_full_property or the model\'s own result does not satisfy its conclusion')
+            return
+        # 1. the pattern of the first pass
+        if delicate1:
+            ctx.near_skipped += 1
+            return
+        if dec_pat(p1, nn) != pat_of_bsr(pats[0], nn):
+            ctx.corr(f'energy smoother (E53): pattern of the first pass', case, p1, pat_enc(pats[0].indptr, pats[0].indices, nn))
+            return
+        ctx.feat('energy-full:pattern1-exact')
+        if ('second' in flags) != second or ('fitted' in flags) != bool(root and nd > bs):
+            ctx.corr(f'energy smoother (E53): passes', case, flags, f'second={second}')
+            return
+        # 2. breakdown / tolerance decisions of the Krylov runs
+        for d in [d1] + ([d2] if second else []):
+            head, *lists = d.split('@')
+            hs = head.split(',')
+            if hs[0] != 'regular' or 'lucky' in hs:
+                ctx.feat('energy-full:breakdown-skipped')
+                return
+            if krylov == 'gmres':
+                dec = (lambda s: [abs(complex(float(a), float(b))) for a, b in dec_list(s, dec_crat)]) if cplx else \
+                      (lambda s: [abs(float(x)) for x in dec_list(s, dec_rat)])
+                normrs, hns, diag = dec(lists[0]), dec(lists[1]), dec(lists[2])
+                if normrs[:1] == [0.0]:
+                    continue
+                if (any(x < 1e-4 for x in normrs) or any(x < 1e-6 for x in hns) or (diag and min(diag) < 1e-6 * max(diag + [1.0]))):
+                    ctx.near_skipped += 1
+                    return
+            else:
+                sums = ([abs(complex(float(a), float(b))) for a, b in dec_list(lists[0], dec_crat)] if cplx
+                        else [abs(float(x)) for x in dec_list(lists[0], dec_rat)])
+                if any(1e-12 < x < 1e-4 for x in sums):
+                    ctx.near_skipped += 1
+                    return
+        # 3. the pattern of the post-filter pass
+        if second:
+            if delicate2:
+                ctx.near_skipped += 1
+                return
+            if dec_pat(p2, nn) != pat_of_bsr(pats[1], nn):
+                ctx.corr(f'energy smoother (E53): pattern of the post-filter pass', case, p2, pat_enc(pats[1].indptr, pats[1].indices, nn))
+                return
+            ctx.feat('energy-full:pattern2-exact')
+        # 4. the result
+        v, f = dec_vals(pm, mode)
+        if not close(f, Pd, 1e-6):
+            ctx.corr(f'energy smoother (E53) {krylov} ({"complex" if cplx else "real"})', case, pm[:300], cj(Pd)[:16])
+    return {'line': line, 'judge': judge, 'key': _key('energy-full', line), 'nontrivial': True,
+            'sample': {'op': 'energy_prolongation_smoother vs composed model (E53)', 'krylov': krylov, 'complex': cplx, 'degree': degree,
+                       'maxiter': maxiter, 'weighting': weighting, 'root': root, 'prefilter': pre, 'postfilter': post, 'n': n}}
+
+
+def part_e53(ctx, N):
+    rng = ctx.np_rng.spawn(2)[1]
+    items = []
+    for t in range(N):
+        items.append(safe(ctx, item_energy_full, rng, t))
     return items
 
 
